@@ -400,6 +400,32 @@ def gen_c12_case(rng, cache_size=None, template="default"):
     return {"cfg": cfg, "init": init, "pdatas": pdatas, "steps": steps, "_meta": {"style": "random"}}
 
 
+def gen_c12_swap_case(rng, cache_size=None, template=None):
+    """file <-> init-directory swaps with UNCHANGED content: a relative include then resolves to a
+    different file (`.q` in `a.yaml` is `q`, in `a/init.yaml` it is `a.q`); both candidates exist"""
+    cfg = gen_cfg(rng)
+    cfg["template"] = template
+    cfg["allow_empty_top"] = False
+    cfg["cache_size"] = cache_size if cache_size is not None else rng.choice([1, 2, 64])
+    mod = rng.choice(["a", "b"])
+    inc = rng.choice(["q", "c"])
+    def spec(items):
+        return {"blocks": [{"cond": None, "items": items}]}
+    pos = rng.choice(["start", "middle", "end"])
+    body = [["k", 1], ["m", 2]]
+    incl = ["include", ["." + inc]]
+    items = {"start": [incl] + body, "middle": [body[0], incl, body[1]], "end": body + [incl]}[pos]
+    files = {mod: spec(items), inc: spec([["j", rng.choice([1, "outer"])], ["k", 7]]),
+             mod + "/" + inc: spec([["j", rng.choice([2, "inner"])], ["m", 9]])}
+    init = {"top": spec([["*", [mod]]]), "files": files, "dirs": []}
+    steps = [["get", "s1", 0], ["swap", mod], ["get", "s1", 0]]
+    for _ in range(rng.randrange(0, 4)):
+        steps.append(rng.choice([["swap", mod], ["get", "s1", 0], ["get", "s2", 0],
+                                 ["write", inc, spec([["j", rng.choice([3, 4])]])]]))
+    steps.append(["get", "s1", 0])
+    return {"cfg": cfg, "init": init, "pdatas": [{}], "steps": steps, "_meta": {"style": "swap"}}
+
+
 def gen_lru_case(rng, size):
     alphabet = ["a", "b", "c", "d"][:rng.choice([2, 3, 4])]
     ops = []
